@@ -427,6 +427,7 @@ type Recv struct {
 	onAP   bool // inherited properties live on Array.prototype (else Object.prototype)
 	lenGet bool // array-like whose length is a getter that logs every read (returns *length)
 	getters map[int]Getter // index -> the element is a counting getter without setter
+	prim   *V             // the receiver is this PRIMITIVE (string, number or boolean); the methods work on ToObject(this)
 }
 
 func (r Recv) protoKeys() []int64 {
@@ -451,6 +452,10 @@ func (r Recv) JS() string {
 			continue
 		}
 		fmt.Fprintf(&b, "Object.defineProperty(%s,\"%d\",{value:%s,writable:%s,enumerable:true,configurable:true});", where, k, p.v.JS(), Cbool(p.w))
+	}
+	if r.prim != nil {
+		fmt.Fprintf(&b, "var ISARR=false, R=%s;PRIM=true;", r.prim.JS())
+		return b.String()
 	}
 	if r.arr {
 		fmt.Fprintf(&b, "var ISARR=true, R=%s;", arrLit(r.elems))
@@ -479,6 +484,15 @@ func (r Recv) JS() string {
 
 func (r Recv) Coq() string {
 	var own []string
+	if r.prim != nil { // ToObject: a String object has non-writable, non-configurable index properties and length (15.5.5)
+		if r.prim.k == 's' {
+			own = append(own, fmt.Sprintf("(KLen, mkP (VNum %d) false false false)", len(r.prim.s)))
+			for i := 0; i < len(r.prim.s); i++ {
+				own = append(own, fmt.Sprintf("(KI %d, mkP (VStr [%d]) false true false)", i, r.prim.s[i]))
+			}
+		}
+		return fmt.Sprintf("(mkO false true %s [])", Clist(own))
+	}
 	if r.arr {
 		own = append(own, fmt.Sprintf("(KLen, mkP (VNum %d) true false false)", len(r.elems)))
 	} else if r.length != nil {
@@ -500,7 +514,7 @@ func (r Recv) Coq() string {
 
 // ---------- the script prelude (string-only helpers: inherited index properties must not disturb it) ----------
 
-const prelude = `var G=this, T={}, AP=Array.prototype, LOG="", K=0, S=[], SKIP="SKIP\n", OUT="", LG=false, NLV, CI=1;
+const prelude = `var G=this, T={}, AP=Array.prototype, LOG="", K=0, S=[], SKIP="SKIP\n", OUT="", LG=false, NLV, CI=1, PRIM=false, W0;
 var AS=[];
 function mkg(id,p,fx,j,n){ var g=function(){ LOG+="8,i"+id+";";
   if(fx===1){var A=AS[j];A[A.length]=n}else if(fx===2){AS[j].length=n}else if(fx===3){R[R.length]=n}else if(fx===4){R.length=n}
@@ -513,11 +527,13 @@ function enc(v){
  if(typeof v==="number"){ if(v!==v)return "dNaN"; if(v===Infinity)return "dInf"; if(v===-Infinity)return "d-Inf";
   if(v===0&&1/v<0)return "d-0"; if(Math.floor(v)===v&&Math.abs(v)<=9007199254740992)return "i"+v; return "g"+v; }
  if(typeof v==="string"){ var h="s"; for(var i=0;i<v.length;i++){h+=v.charCodeAt(i)+"."} return h; }
- if(v===R)return "R"; if(v===T)return "T"; if(v===G)return "W"; if(Array.isArray(v))return "A"; return "o";
+ if(v===R)return PRIM?"o":"R";
+ if(PRIM&&typeof v==="object"&&Object.prototype.toString.call(v)===Object.prototype.toString.call(Object(R))&&v.valueOf()===R){ if(W0===undefined)W0=v; return v===W0?"R":"o"; }
+ if(v===T)return "T"; if(v===G)return "W"; if(Array.isArray(v))return "A"; return "o";
 }
 function encarr(r){ var s="A"; for(var i=0;i<r.length;i++){ s+=(i?",":"")+(HOP.call(r,i)?enc(r[i]):"h"); } return s; }
 function encrv(r){
- if(r===R)return "R";
+ if(!PRIM&&r===R)return "R";
  if(Array.isArray(r))return encarr(r);
  return enc(r);
 }
@@ -536,9 +552,9 @@ function cb(){
  if(n<S.length){ var s=S[n]; if(s.m)s.m(arguments[CI]); if(s.t)throw new URIError("cb"); return s.r; }
 }
 function step(f){
- var s; LOG="";
+ var s; LOG=""; W0=undefined;
  try{ s="ok "+encrv(f()); }catch(e){ s="ex "+(e instanceof RangeError?3:e instanceof TypeError?6:e instanceof URIError?7:8); }
- return s+"#"+dump(R)+"#"+LOG+"\n";
+ return s+"#"+dump(PRIM?Object(R):R)+"#"+LOG+"\n";
 }
 `
 
